@@ -58,7 +58,34 @@ func fixed(c *hlib.Ctx) {
 	// the arms (the bounding-box centre of the thin one lies in the notch), 2-D and 3-D
 	for v := 0; v < 12; v++ {
 		roots := demoNest(v)
-		hier2Case(c, soupOfSegs(c, polySegs2(c, roots)), "demo-nest", roots)
-		hier3Case(c, polyMesh3(c, roots, v%3), "demo-nest", roots)
+		hier2Case(c, soupOfSegs(c, polySegs2(c, roots)), "demo-nest", roots, identity)
+		hier3Case(c, polyMesh3(c, roots, v%3), "demo-nest", roots, identity)
+		// the same scenes as needles along x, y, z (every signed permutation over the 12 variants)
+		hier2Case(c, soupOfSegs(c, polySegs2(c, roots)), "demo-nest", roots, needle(2*(v%2), v%4, v%2, 5, 2))
+		hier3Case(c, polyMesh3(c, roots, v%3), "demo-nest", roots, needle(v%6, (5*v+3)%8, v%3, 6, 3))
+	}
+	// a needle along each axis (both directions) with two small inner boxes, one in each of two
+	// opposite corners of its bounding box, for every pair of opposite corners
+	for long := 0; long < 3; long++ {
+		for corner := 0; corner < 8; corner++ {
+			m := model3d.NewMeshRect(model3d.XYZ(0, 0, 0), model3d.XYZ(4, 4, 4))
+			for side := 0; side < 2; side++ {
+				var lo [3]float64
+				for k := 0; k < 3; k++ {
+					if (corner>>uint(k))&1 == side {
+						lo[k] = 0.25
+					} else {
+						lo[k] = 3.25
+					}
+				}
+				size := 0.5 - 0.25*float64(side)
+				a := model3d.XYZ(lo[0], lo[1], lo[2])
+				if side == 1 {
+					a = a.Add(model3d.XYZ(0.125, 0.125, 0.125))
+				}
+				m.AddMesh(invert3(model3d.NewMeshRect(a, a.Add(model3d.XYZ(size, size, size)))))
+			}
+			hier3Case(c, m, "corner-needle", nil, needle((long+corner)%6, corner, long, 5, 2))
+		}
 	}
 }
